@@ -172,7 +172,10 @@ class RowColumnViewSpec(KernelSpec):
     def shapes(self, tier, inst):
         if inst["impl"] == "null":
             return [(0,), (2,)]
-        return [(0,), (2,)] if tier == "quick" else [(0,), (1,), (3,), (9,)]
+        if tier == "quick":
+            return [(0,), (2,)]
+        # every nullable row forks twice (column view and row view): 9 rows only for the non-nullable representations
+        return [(0,), (1,), (3,), (9,)] if not inst["impl"].startswith("nullable") else [(0,), (1,), (3,), (5,)]
 
     def elem_ty(self, inst):
         return inst["impl"].replace("nullable_", "")
